@@ -188,7 +188,7 @@ func finish(res *Result, r simrt.Result, s *simrt.Sim) {
 }
 
 // Main is the process entry point, called from TestSim.
-func Main(t *testing.T, engine, profile, tier string, seed uint64, count int, planFile, outFile string, keepPlan bool, trace string) {
+func Main(t *testing.T, engine, profile, tier string, seed uint64, count int, planFile, outFile string, keepPlan bool, trace string, inject string) {
 	var out *os.File = os.Stdout
 	if outFile != "" {
 		f, err := os.OpenFile(outFile, os.O_CREATE|os.O_WRONLY|os.O_APPEND, 0644)
@@ -234,6 +234,7 @@ func Main(t *testing.T, engine, profile, tier string, seed uint64, count int, pl
 			emit(&Result{Engine: engine, Profile: profile, Seed: s, Status: "tooling", Msg: err.Error()})
 			continue
 		}
+		p.Inject = inject
 		emit(RunPlan(t, p, keepPlan))
 	}
 }
